@@ -12,10 +12,14 @@ MCInit == /\ prog \in {Progs[i] : i \in 1..Len(Progs)}
 \* after MaxTicks the only way on is the interrupt (so every run ends and is swept)
 MCNext == \/ StartRun \/ Dispatch \/ EndTick \/ Sweep \/ EndRun \/ MachineStep \/ Interrupt
           \/ (tickn < MaxTicks /\ NextTick)
-          \/ (tickn < MaxTicks /\ \E s \in Range(prog.inputs), v \in EnvVals : EnvSet(s, v) /\ store[s] # v)
+          \* a write of the same value is only observable on a watched share (it stamps the share)
+          \/ (tickn < MaxTicks /\ \E s \in Range(prog.inputs) : \E v \in EnvValsOf(s) :
+                  EnvSet(s, v) /\ (store[s] # v \/ (s \in Watched /\ stamps[s] # now)))
+          \/ (tickn < MaxTicks /\ \E s \in FieldedShares \cap Watched : \E v \in {0, 1} :
+                  EnvSetF(s, v) /\ (xstore[s] # [has |-> TRUE, v |-> v] \/ stamps[s] # now))
 MCSpec == MCInit /\ [][MCNext]_vars
 \* the label is an observation only
-View == <<prog, phase, now, tickn, pending, ready, more, cur, fs, store, todo, entered, crashed, sweeps>>
+View == <<prog, phase, now, tickn, pending, ready, more, cur, fs, store, stamps, xstore, marks, todo, entered, crashed, sweeps>>
 \* every run terminates (checked without state constraint: the tick bound is in the next-state relation)
 Terminates == <>(phase = "end")
 \* fairness: the machine itself keeps stepping, and between ticks the clock eventually ticks or the
